@@ -1,6 +1,7 @@
 """
 C19 - visitor extensions see a balanced, ordered walk whatever the main visitor prunes.
-  R19.1 typestate over the pruning exceptions in Visitor.walkabout: whatever visit() raises, depart() is reached in the same activation
+  R19.1 typestate over the pruning exceptions in Visitor.walkabout: whatever visit() raises, depart() is reached in the same activation;
+        a recorded SkipSiblings always leaves walk() / walkabout() as an exception
   R19.2 Visitor.visit / Visitor.depart: pruning is delayed past the extensions; documented order of the four timings
   R19.3 scope-stack pairing in the AST builder
   R19.4 Visitor.visit is only invoked by the walkers (which pair it with depart)
